@@ -1,6 +1,7 @@
 package main
 
 import (
+	"sync"
 	"errors"
 	"fmt"
 	"math"
@@ -116,7 +117,37 @@ func dumpNum(b *strings.Builder, i *simdjson.Iter) error {
 }
 
 // dumpValue prints the value the iterator is positioned on (after Advance).
+// dumpDsts: destination Objects and Arrays that every dump re-uses, one per nesting level and
+// kept across documents (through a pool, so that concurrent dumps never share one): what
+// Iter.Object(dst) / Iter.Array(dst) return must not depend on what dst held before — another
+// document's tape, message and string buffer.
+type dumpDsts struct {
+	objs [48]simdjson.Object
+	arrs [48]simdjson.Array
+}
+
+func (d *dumpDsts) obj(depth int) *simdjson.Object {
+	if d == nil || depth >= len(d.objs) {
+		return nil
+	}
+	return &d.objs[depth]
+}
+func (d *dumpDsts) arr(depth int) *simdjson.Array {
+	if d == nil || depth >= len(d.arrs) {
+		return nil
+	}
+	return &d.arrs[depth]
+}
+
+var dumpDstPool = sync.Pool{New: func() interface{} { return &dumpDsts{} }}
+
 func dumpValue(b *strings.Builder, i *simdjson.Iter, depth int) error {
+	ds := dumpDstPool.Get().(*dumpDsts)
+	defer dumpDstPool.Put(ds)
+	return dumpValueD(b, i, depth, ds)
+}
+
+func dumpValueD(b *strings.Builder, i *simdjson.Iter, depth int, ds *dumpDsts) error {
 	if depth > 100000 {
 		return errors.New("too deep")
 	}
@@ -142,7 +173,7 @@ func dumpValue(b *strings.Builder, i *simdjson.Iter, depth int) error {
 		}
 		fmt.Fprintf(b, "s%x;", s)
 	case simdjson.TypeArray:
-		arr, err := i.Array(nil)
+		arr, err := i.Array(ds.arr(depth))
 		if err != nil {
 			return err
 		}
@@ -153,13 +184,13 @@ func dumpValue(b *strings.Builder, i *simdjson.Iter, depth int) error {
 			if t == simdjson.TypeNone {
 				break
 			}
-			if err := dumpValue(b, &it, depth+1); err != nil {
+			if err := dumpValueD(b, &it, depth+1, ds); err != nil {
 				return err
 			}
 		}
 		b.WriteByte(']')
 	case simdjson.TypeObject:
-		obj, err := i.Object(nil)
+		obj, err := i.Object(ds.obj(depth))
 		if err != nil {
 			return err
 		}
@@ -174,7 +205,7 @@ func dumpValue(b *strings.Builder, i *simdjson.Iter, depth int) error {
 				break
 			}
 			fmt.Fprintf(b, "k%x;", name)
-			if err := dumpValue(b, &el, depth+1); err != nil {
+			if err := dumpValueD(b, &el, depth+1, ds); err != nil {
 				return err
 			}
 		}
